@@ -21,7 +21,7 @@
        not, from inside or outside the parent), under the consistency of the history store that every run maintains.
    PARTIAL: (4) is proved per transition (every transition of every run by the C01 run invariant); timer / service
    non-interference for siblings follows from (3) only for what is cancelled. *)
-From XSM Require Import Model.Macro Proofs.PhaseP Proofs.LegalP Proofs.SortP Proofs.StepP Proofs.DescentP Proofs.EffectP Proofs.AccountP Proofs.HistoryP.
+From XSM Require Import Model.Macro Proofs.PhaseP Proofs.LegalP Proofs.SortP Proofs.StepP Proofs.DescentP Proofs.EffectP Proofs.AccountP Proofs.HistoryP Proofs.IdP Proofs.GeomBridge Model.TreeLib Gen.GenGeom.
 From Coq Require Import Sorting.Sorted.
 
 Theorem C03_phases_and_event_identity : forall eng pr m t tgt ev s0 s1,
@@ -139,6 +139,23 @@ Proof.
   eapply same_cfg_trans; [exact Ha | apply logo_same].
 Qed.
 Print Assumptions C03_internal_actions_only.
+
+
+(* TIE T: which states a transition leaves and which it enters is decided in the source by _find_transition_domain,
+   _compute_states_to_exit and _get_path_to_state; these are re-translated from the current source on every run
+   (Gen/GenGeom.v) and equal the model functions the theorems above are stated over. *)
+Theorem C03_domain_is_the_source : forall m src tgt, wf m = true -> src < size m -> tgt < size m ->
+  GenGeom.find_transition_domain m src tgt = if Nat.eqb tgt 0 then None else Some (find_domain m src tgt).
+Proof. exact find_domain_bridge. Qed.
+Print Assumptions C03_domain_is_the_source.
+Theorem C03_exit_set_is_the_source : forall m, ancestry_side_ok m = true -> forall C H d tgt,
+  (forall s, In s C -> s < size m) -> d < size m ->
+  GenGeom.compute_states_to_exit m C H (Some d) tgt = exit_set_h m C H d tgt.
+Proof. exact exit_set_bridge. Qed.
+Print Assumptions C03_exit_set_is_the_source.
+Theorem C03_entry_path_is_the_source : forall m t d, GenGeom.get_path_to_state m t (Some d) = path_to m t d.
+Proof. exact get_path_bridge. Qed.
+Print Assumptions C03_entry_path_is_the_source.
 
 (* the machine of former finding F21 (repaired in /repo by the fix that also closes F34, see known_findings.json): parallel
    machine {a (entry 1, exit 2; H -> #m.h; OUT -> reenter a), h: history}.  After OUT has recorded history, H used to
